@@ -13,18 +13,24 @@ from vf.tlc import Raw, render_cfg, require_ok, run_tlc, sany, wrap_module
 
 META = {
     "engine": "wire",
-    "text": "(a) LogOrder.tla models one call (unary / producer / exchange, with and without header, pipe and HTTP) at the "
+    "text": "(a) LogOrder.tla models one call (unary / producer / exchange, with and without header; pipe, HTTP, and HTTP "
+            "with max_response_bytes where a producer's turns are buffered into one response) at the "
             "granularity of log batches, data batches and stream boundaries: messages logged in the method body, before "
             "and after the batch of every process() step, in steps that finish or raise; every client reader delivers "
-            "what it meets.  TLC explores every script up to the bounds and checks ExactlyOnceNoDuplicate / OnlyEmitted "
-            "/ InEmissionOrder / DeliveredBeforeOutcome / ContentPreserved on every state; every script is executed on "
+            "what it meets, including the reads done by the three ways of leaving a session (close / cancel / __exit__) "
+            "right after any turn or before the first.  TLC explores every script up to the bounds and checks "
+            "ExactlyOnceNoDuplicate / OnlyEmitted / InEmissionOrder / DeliveredBeforeOutcome / DeliveredByEndOfStream / "
+            "ContentPreserved on every state; each replay draws the output route of its transport (inline, shared-memory "
+            "side channel, external-storage configuration below threshold) and the logging entry point (CallContext or "
+            "OutputCollector) per message; every script is executed on "
             "real pipe and in-process HTTP sessions and TLC judges the recorded (emission, delivery) histories with the "
-            "same operators.  LogContent.tla enumerates level x text class x extra class x emission point x transport; "
+            "same operators.  LogContent.tla enumerates level x text class x extra class x emission point (incl. behind the "
+            "batch of the last turn taken) x exit op x transport x output route x logging entry point; "
             "each is emitted by a real method and judged.  (b) LogPeer.tla is the decision table over everything a "
             "non-Python peer can put in log metadata (level known/unknown/missing, message present/empty/non-UTF-8/"
             "missing, extra absent / objects with keys level, message, self, arbitrary, non-string values / array / "
             "string / number / null / invalid JSON / empty / non-UTF-8 / deeply nested) x reader (unary, stream, header, "
-            "HTTP init) x transport; a scripted fake peer writes the raw IPC bytes to the real client (in-memory and "
+            "HTTP init) x position (before the payload / behind it, met only by the exit) x exit op x transport; a scripted fake peer writes the raw IPC bytes to the real client (in-memory and "
             "real pipe transports, falcon WSGI sink for HTTP) and TLC judges every observation: never CallFails.",
     "note": "Trusted: message identity is carried in the text ('#n# ' prefix) in the ordering part; content equality is "
             "computed by the harness and judged as a boolean fact; user extras are compared modulo the transport's own "
